@@ -12,7 +12,12 @@ for d in benign/*/; do
   alarms=""
   for p in C01 C02 C03 C04 C05 C06 C07 C08 C09 C10 C11 C12 C13 C14 C15 C16 C17 C18 C19 C20; do
     out=$(./check "$p" "$TIER" 2>&1)
-    if echo "$out" | grep -q "^VIOLATION"; then alarms="$alarms $(echo "$out" | grep '^VIOLATION' | head -1 | sed 's/VIOLATION property=//')"; fi
+    if echo "$out" | grep -q "^VIOLATION"; then
+      alarms="$alarms $(echo "$out" | grep '^VIOLATION' | head -1 | sed 's/VIOLATION property=//')"
+      # keep the replay: an isolated run deletes its copy of /verif when it ends
+      rp=$(echo "$out" | grep '^VIOLATION' | head -1 | sed 's/.*replay=\([^ ]*\).*/\1/')
+      mkdir -p "${ALARM_DIR:-$V/.build/alarms}" && cp "$rp" "${ALARM_DIR:-$V/.build/alarms}/$id-$(basename "$rp")" 2>/dev/null
+    fi
   done
   git -C "$R" checkout -- . >/dev/null 2>&1
   git -C "$R" clean -fdq >/dev/null 2>&1
